@@ -327,16 +327,25 @@ struct PtrSys
       bool died[2];
       sys.apply(model, op, died);
       exec(o);
-      if (o.kind == AS_MOVE && o.a == o.b && before.tgt[o.a] >= 0) {
-        // self-move: null (what the enumeration follows) or unchanged are both consistent with the statement
-        Base *p = hb[o.a]->ptr;
+      if ((o.kind == AS_MOVE || o.kind == CT_MOVE) && before.tgt[o.b] >= 0) {
+        // The statement does not say that a moved-from handle becomes null (the enumeration follows "null", which is
+        // what the tree does).  A source that still points at its object is consistent as long as the count says
+        // so: then the move behaved like a copy (onto itself: like nothing), and the history is cut here.
+        Base *p = hb[o.b]->ptr;
         if (p != nullptr) {
-          if (p != raw[before.tgt[o.a]]) {
-            ctx.viol(o.cls + "|handle points at something it was never given", "after the self-move the handle is neither null nor its old object");
+          if (p != raw[before.tgt[o.b]]) {
+            ctx.viol(o.cls + "|handle points at something it was never given", "after the move the source handle is neither null nor its old object");
             return;
           }
-          model = before;  // kept its object: nothing changed at all
-          died[0] = died[1] = false;
+          model = before;
+          if (o.kind == CT_MOVE)
+            model.cons[o.a] = 1;
+          model.tgt[o.a] = model.tgt[o.b];
+          for (int k = 0; k < 2; k++) {
+            died[k] = model.alive[k] && model.count(k) == 0;
+            if (died[k])
+              model.alive[k] = 0;
+          }
           ctx.diverged = true;
         }
       }
